@@ -2,7 +2,10 @@ import Rare.Drv.Expr
 import Rare.Spec.C17Wf
 import Rare.Spec.C17Wrap
 import Rare.Spec.C17Atoi
+import Rare.Spec.C17Sel
 import Rare.Model.C17Pool
+import Rare.Model.C17Heap
+import Rare.Model.C17Extra
 /-!
 Ops of C17 (besides the shared `expr` op):
 
@@ -21,8 +24,15 @@ Ops of C17 (besides the shared `expr` op):
                                                      real helper:
        spec split <s> <d> | spec join <arr> <d> | spec len <arr> | spec select <arr> <i>
        spec slice <arr> <start> <len | -> | spec range <start> <stop> <incr> | spec in <v> <arr>
+       spec words <s> <i>   `{select s i}` (word selection; NUL is one of its delimiters) = `selectWord` of
+                            `Spec/C17Sel.lean` for quote-free `s` (`unmodelled quoted` otherwise)
        spec reduce <arr> <reducer id> <init | - | e>  (`-`: no third argument, `e`: an explicit `""`) `C17.reduce` with the reducer as a Lean function (`redFn`; the
                                                       harness runs the template of the same id)
+  mkarray <list>                                     `expressions.MakeArray` (model `C17Extra.makeArray`, checked against `pack`)
+  splitterok <S hex> <Delim hex>                     drain with `NextOk`, then `Next` once more on the finished splitter
+  heapm <size> <opt> <skeleton> <elems> <keys>       the heap machine `C17Heap.ev` (objects, pointer chasing, real Get/Return
+                                                     on a heap full of garbage) on a template given by its helper skeleton,
+                                                     against the real BuildKey; cross-checked with the pool-free model
   pool <size> <script>                               the model of `slicepool.ObjectPool` (`Model/C17Pool.lean`): the object
                                                      every `Get` of the script hands out (`g`, `r<k>` = Return of the
                                                      k-th Get's object), objects named by first appearance
@@ -120,6 +130,12 @@ def specHandle : List String → String
     match Hex.dec v, Hex.dec a with
     | some vb, some ab => if vb ∈ C17.elems ab then "ok 1" else "ok 0"
     | _, _ => "bad-args"
+  | ["words", s, i] =>
+    match Hex.dec s, i.toInt? with
+    | some sb, some iv =>
+      if sb.contains 34 then "unmodelled quoted"     -- the specification speaks about quote-free strings
+      else "ok " ++ Hex.enc (C17.selectWord sb iv)
+    | _, _ => "bad-args"
   | _ => "bad-op"
 
 def parseScript (s : String) : Option (List C17Pool.Ev) :=
@@ -188,9 +204,109 @@ def exprGuarded (o t el ks : String) : String :=
     | some a => a
     | none => "bad-op"
 
+/-! ### `heapm`: the heap machine (`Model/C17Heap.lean`) against the real code
+
+A case names a template by its helper SKELETON in prefix notation (`M` @map, `F` @filter, `R` @reduce, `O` @for,
+`L` @len, `S<n>` the n-th leaf of `hmLeaves`); the harness spells the same skeleton as a template and runs the real
+`BuildKey`.  Leaves are compiled by the model's compiler (they are pool-free), the helper structure is run by
+`C17Heap.ev` – real `Get`/overwrite/`Eval`/`Return` on a heap whose objects all hold garbage and point at
+themselves.  The driver also evaluates the spelled template through the pool-free model (`expr`) and answers
+`machine-model-disagree` unless both agree, and `pool-leak` unless the free list afterwards holds exactly the
+objects it held before plus fresh ones. -/
+
+inductive Sk where
+  | leaf (n : Nat)
+  | map (a f : Sk)
+  | filter (a p : Sk)
+  | reduce (a f : Sk)
+  | for_ (s c n : Sk)
+  | len (a : Sk)
+
+def hmLeaves : List String :=
+  ["{0}", "{1}", "{arr}", "{k}", "{0}{k}", "{0}{d}{1}", "{neq {0} {k}}", "{neq {1} 3}", "{neq {1} 2}", "{0}a", "x", "",
+   "{eq {0} b}", "{-1}", "{1}{0}", "{if {eq {1} 1} b {0}}"]
+
+def parseSk : Nat → List String → Option (Sk × List String)
+  | 0, _ => none
+  | _ + 1, [] => none
+  | fuel + 1, tok :: rest =>
+    let two (mk : Sk → Sk → Sk) : Option (Sk × List String) :=
+      match parseSk fuel rest with
+      | some (a, r1) =>
+        match parseSk fuel r1 with
+        | some (b, r2) => some (mk a b, r2)
+        | none => none
+      | none => none
+    if tok = "M" then two .map
+    else if tok = "F" then two .filter
+    else if tok = "R" then two .reduce
+    else if tok = "L" then (parseSk fuel rest).map fun (a, r) => (.len a, r)
+    else if tok = "O" then
+      match parseSk fuel rest with
+      | some (a, r1) =>
+        match parseSk fuel r1 with
+        | some (b, r2) =>
+          match parseSk fuel r2 with
+          | some (c, r3) => some (.for_ a b c, r3)
+          | none => none
+        | none => none
+      | none => none
+    else if tok.startsWith "S" then (tok.drop 1).toNat?.map fun n => (.leaf n, rest)
+    else none
+
+/-- The skeleton spelled as ONE template argument (the harness does the same). -/
+def skArg : Sk → String
+  | .leaf n => "\"" ++ hmLeaves.getD n "" ++ "\""
+  | .map a f => "{@map " ++ skArg a ++ " " ++ skArg f ++ "}"
+  | .filter a p => "{@filter " ++ skArg a ++ " " ++ skArg p ++ "}"
+  | .reduce a f => "{@reduce " ++ skArg a ++ " " ++ skArg f ++ "}"
+  | .for_ s c n => "{@for " ++ skArg s ++ " " ++ skArg c ++ " " ++ skArg n ++ "}"
+  | .len a => "{@len " ++ skArg a ++ "}"
+
+/-- A leaf as the compiler makes it from the argument text. -/
+def leafStage (t : String) : Option Stage :=
+  match compile Rare.Drv.Expr.registry false t.toList with
+  | .ok (stages, []) => some (joinStages stages)
+  | _ => none
+
+def lenFn (v : Bytes) : Bytes :=
+  match (lenStage (Stage.lit v)).run ⟨fun _ => [], fun _ => []⟩ with
+  | .ok r => r
+  | .error _ => []
+
+def skTm : Sk → Option C17Heap.Tm
+  | .leaf n => (leafStage (hmLeaves.getD n "")).map .scalar
+  | .map a f => do let x ← skTm a; let y ← skTm f; pure (.map x y)
+  | .filter a p => do let x ← skTm a; let y ← skTm p; pure (.filter x y)
+  | .reduce a f => do let x ← skTm a; let y ← skTm f; pure (.reduce [] x y)
+  | .for_ s c n => do let x ← skTm s; let y ← skTm c; let z ← skTm n; pure (.for_ x y z)
+  | .len a => do let x ← skTm a; pure (.app1 lenFn x)
+
+def heapm (size : Nat) (opt : String) (sk : Sk) (el ks : String) : String :=
+  match skTm sk, decHexList el, decHexList ks with
+  | some tm, some elems, some keys =>
+    let ctx := Rare.Drv.Expr.mkCtx elems keys
+    let h0 : C17Heap.Heap := ⟨C17Pool.Pool.new size, fun n => ⟨.obj n, [120], [121]⟩⟩
+    match C17Heap.ev ctx (C17Heap.depth tm + 1) tm .root h0 with
+    | .error m => Rare.Drv.Expr.panicAns m
+    | .ok (v, h') =>
+      let fresh := (List.range (h'.pool.next - h0.pool.next)).map (· + h0.pool.next)
+      let want := (h0.pool.free ++ fresh).mergeSort
+      if h'.pool.free.mergeSort ≠ want then "pool-leak"
+      else
+        let viaModel := exprGuarded opt (Hex.enc (skArg sk).toUTF8.toList) el ks
+        if valOf viaModel ≠ some v then s!"machine-model-disagree {viaModel}"
+        else "ok " ++ Hex.enc v
+  | _, _, _ => "bad-args"
+
 def handle (args : List String) : String :=
   match args with
   | ["expr", o, t, el, ks] => exprGuarded o t el ks
+  | ["heapm", size, o, skel, el, ks] =>
+    let toks := skel.splitOn ","
+    match size.toNat?, parseSk (toks.length + 1) toks with
+    | some n, some (sk, []) => heapm n o sk el ks
+    | _, _ => "bad-args"
   | ["pool", size, script] =>
     match size.toNat?, parseScript script with
     | some n, some evs =>
@@ -211,6 +327,18 @@ def handle (args : List String) : String :=
     | some sb, some db =>
       match drain (sb.length + 3) { S := sb, Delim := db } [] with
       | some l => "ok " ++ hexList l
+      | none => "hang"
+    | _, _ => "bad-args"
+  | ["mkarray", l] =>
+    match decHexList l with
+    | some xs =>
+      if C17Extra.makeArray xs ≠ C17.pack xs then "model-spec-disagree" else "ok " ++ Hex.enc (C17Extra.makeArray xs)
+    | none => "bad-args"
+  | ["splitterok", s, d] =>
+    match Hex.dec s, Hex.dec d with
+    | some sb, some db =>
+      match C17Extra.drainOk (sb.length + 3) { S := sb, Delim := db } [] with
+      | some (l, sp') => s!"ok {hexList l} after={Hex.enc sp'.Next.1} done={sp'.Next.2.Done}"
       | none => "hang"
     | _, _ => "bad-args"
   | ["atoi", s] =>
